@@ -692,6 +692,17 @@ func (a *Act) loopHead(li *loopInfo, st *State, preds []edgeState) *State {
 		if phi.Comment == "rangeindex" {
 			// by construction of go/ssa's range-over-slice loop the hidden index starts at -1 and is incremented
 			h.assume(app(">=", c, "(- 1)"))
+			// ... and never beyond the length fixed before the loop: at the head index+1 <= len (the loop
+			// continues only while index+1 < len, and len is an SSA value computed in the preheader)
+			for _, ins := range b.Instrs {
+				if bo, ok := ins.(*ssa.BinOp); ok && bo.Op == token.LSS {
+					if inc, ok := bo.X.(*ssa.BinOp); ok && inc.Op == token.ADD && inc.X == ssa.Value(phi) {
+						if lv, ok := a.vals[bo.Y]; ok && lv.T != "" && lv.Loc == nil {
+							h.assume(app("<=", app("+", c, "1"), lv.T))
+						}
+					}
+				}
+			}
 		}
 	}
 	if mods.all {
